@@ -125,11 +125,20 @@ HashDecoded == \E i \in DOMAIN heap :
                  /\ heap' = heap
                  /\ Record(Step("hashd", i, 0, "", 0, TRUE, 0))
 
+\* Operations that only READ a message (hash, str / repr, the text form without its time, dict(),
+\* bytes(), len, comparison, pickling): the heap is UNCHANGED - not only the values but the set of
+\* attributes of every object (the driver compares both after every step).  v is the reader.
+Readers == 1..6
+Read == \E i \in DOMAIN heap : \E r \in Readers :
+          /\ heap[i].x # Bad
+          /\ heap' = heap
+          /\ Record(Step("read", i, 0, "", r, TRUE, 0))
+
 NoneMaps == /\ heap' = heap
             /\ \E op \in {"freeze_none", "thaw_none"} : Record(Step(op, 0, 0, "", 0, TRUE, 0))
 
 Next == /\ Len(hist) < MaxOps
-        /\ (New \/ Copy \/ Freeze \/ Thaw \/ SetAttr \/ SetNew \/ DelAttr \/ HashEq \/ HashVariant \/ HashDecoded \/ NoneMaps)
+        /\ (New \/ Copy \/ Freeze \/ Thaw \/ SetAttr \/ SetNew \/ DelAttr \/ HashEq \/ HashVariant \/ HashDecoded \/ NoneMaps \/ Read)
 Spec == Init /\ [][Next]_vars
 
 \* ---- properties ----
@@ -150,7 +159,7 @@ AllValidOrUnknown == \A k \in DOMAIN heap : heap[k].cls \in {"RT", "M", "SX"} \/
 ClsCode(c) == CASE c = "M" -> 1 [] c = "MM" -> 2 [] c = "SS" -> 3 [] c = "UM" -> 4 [] c = "RT" -> 5 [] c = "SX" -> 6
 OpCode(o) == CASE o = "new" -> 1 [] o = "copy" -> 2 [] o = "freeze" -> 3 [] o = "thaw" -> 4
                [] o = "setattr" -> 5 [] o = "hash" -> 6 [] o = "freeze_none" -> 7 [] o = "thaw_none" -> 8 [] o = "hashf" -> 9
-               [] o = "delattr" -> 10 [] o = "setnew" -> 11 [] o = "hashd" -> 12
+               [] o = "delattr" -> 10 [] o = "setnew" -> 11 [] o = "hashd" -> 12 [] o = "read" -> 13
 HeapFlat(h) == <<Len(h)>> \o [k \in 1..(4 * Len(h)) |->
                   LET o == h[((k - 1) \div 4) + 1] IN
                   CASE (k - 1) % 4 = 0 -> ClsCode(o.cls) [] (k - 1) % 4 = 1 -> (IF o.frozen THEN 1 ELSE 0)
